@@ -23,11 +23,15 @@ def probe_rule(i, p, decl):
         return "rule p%d { condition: defined filesize }" % i
     if t == "cs":
         return 'rule p%d { condition: console.log("p%d=", hash.checksum32(%d, %d)) }' % (i, i, p["x"], p["n"])
+    if t == "ep":
+        return 'rule p%d { condition: console.log("p%d=", entrypoint) }' % (i, i)
     raise ValueError(t)
 
 
-def g_probe(p):
+def g_probe(p, ep=None):
     t = p["t"]
+    if t == "ep":
+        return "PEntry %s" % ("None" if ep is None else "(Some %d)" % ep)
     return {"at": lambda: "PAt %d" % p["x"], "in": lambda: "PIn %d %d" % (p["lo"], p["hi"]),
             "count": lambda: "PCount", "offset": lambda: "POffset %d" % p["i"],
             "uint": lambda: "PUint %d %d" % (p["n"], p["x"]), "filesize": lambda: "PFilesize",
@@ -54,7 +58,8 @@ class C11(Prop):
             "BEFORE the rule that needs strings — in fast mode they are evaluated before the regions are scanned; "
             "per case 4-9 "
             "probe rules: `$a at X`, `$a in (lo..hi)`, `#a`, `@a[i]`, uint8/16/32(X) at region edges, `defined "
-            "filesize`, hash.checksum32 over ranges inside one region, across adjacent regions, across a gap, past "
+            "filesize`, `entrypoint` (1/8 of the layouts hold a 96-byte ELF image in one region; expected = entry point "
+            "of that region scanned alone + its base, in the three modes), hash.checksum32 over ranges inside one region, across adjacent regions, across a gap, past "
             "the last region. Compared with Scanner::scan_mem on each fetched region (rebased, concatenated) and with "
             "the model. Non-trivial: >= 2 fetched regions and >= 1 match and an address-based probe; distinct by "
             "(string, layout, mode, probes).")
@@ -84,7 +89,11 @@ class C11(Prop):
     # ---------------------------------------------------------------- generation
     OTHER = [("$a = /[0-9]abc/", [b"1abc", b"7abc", b"abc"]), ("$a = { ?? 62 63 64 }", [b"abcd", b"\x00bcd", b"bcd"]),
              ("$a = /x[a-z]{0,3}yy/", [b"xyy", b"xabyy", b"xabcyy", b"yy"]), ("$a = /[a-c]{2}/", [b"ab", b"ca", b"bbb"]),
-             ("$a = /ab+c/", [b"abc", b"abbbc", b"ac"])]
+             ("$a = /ab+c/", [b"abc", b"abbbc", b"ac"]),
+             ("$a = /a[^a]*?bcde/", [b"axxbcde", b"abcde", b"a bcde", b"aaxbcde"]),
+             ("$a = /[xy]{1,3}?q42/", [b"xq42", b"xyxq42", b"q42"])]
+    ELF_SMALLEST = ("7f454c4601010100000000000000000002000300010000005480040834000000000000000000000034002000010000000000"
+                    "00000100000000000000008004080000000060000000600000000500000004000000b801000000bb00000000cd80")
 
     def gen_case(self, rng):
         d = gen_decl(rng)
@@ -129,8 +138,20 @@ class C11(Prop):
                 r["described"] = len(mem) - 1                    # more bytes fetched than described
             regions.append(r)
             addr += r.get("described", len(mem))
+        if nreg >= 1 and rng.chance(1, 8):
+            # one region holds an executable image (boreal/tests/assets/elf/smallest, 96 bytes): `entrypoint`
+            k = rng.below(len(regions))
+            regions[k] = dict(regions[k], hex=self.ELF_SMALLEST + regions[k]["hex"][:40])
+            regions[k].pop("described", None)
+            addr = regions[0]["start"]
+            for r in regions:                     # keep the layout disjoint and ascending
+                r["start"] = max(r["start"], addr)
+                addr = r["start"] + max(len(r["hex"]) // 2, r.get("described", 0))
+            has_image = True
+        else:
+            has_image = False
         order = "asc"
-        if nreg >= 2 and rng.chance(1, 12):
+        if nreg >= 2 and rng.chance(1, 4 if raw_decl else 12):
             regions = list(reversed(regions)) if rng.chance(1, 2) else rng.shuffle(regions)
             order = "shuffled"
         mode = rng.choice(["legacy", "legacy", "fast", "single_pass"])
@@ -143,6 +164,8 @@ class C11(Prop):
             a = rng.choice(edges) + rng.choice([0, 0, 0, 1, 2, -1, -2, -3, 5])
             return max(0, a)
         probes = [{"t": "count"}, {"t": "filesize"}]
+        if has_image or rng.chance(1, 20):
+            probes.append({"t": "ep"})
         for _ in range(rng.range(2, 7)):
             k = rng.below(7)
             if k == 0:
@@ -160,7 +183,7 @@ class C11(Prop):
         if noscan:
             # every rule decidable without its strings (`true or $a`), matched-only reporting: the no-scan pass may
             # answer the verdicts, the match lists must still be the rebased union (compute_full_matches)
-            probes = [p for p in probes if p["t"] in ("filesize", "uint", "cs")]
+            probes = [p for p in probes if p["t"] in ("filesize", "uint", "cs", "ep")]
             mode = rng.choice(["fast", "fast", "legacy", "single_pass"])
         firstpass = (not noscan) and rng.chance(1, 5)
         if firstpass:
@@ -175,7 +198,8 @@ class C11(Prop):
                 probes.append({"t": "uint", "n": 1, "x": last + rng.choice([0, 1, 100])})
             # the pass stops at the first rule that needs strings: the reads come first
             probes = [p for p in probes if p["t"] in ("uint", "cs", "filesize")] + \
-                     [p for p in probes if p["t"] not in ("uint", "cs", "filesize")]
+                     [p for p in probes if p["t"] not in ("uint", "cs", "filesize", "ep")] + \
+                     [p for p in probes if p["t"] == "ep"]
         return {"decl": d, "raw_decl": raw_decl, "regions": regions, "mode": mode, "probes": probes, "order": order,
                 "noscan_shape": noscan, "firstpass_shape": firstpass,
                 "profile": rng.choice(["speed", "memory"]), "params": {}}
@@ -206,7 +230,9 @@ class C11(Prop):
                          "params": p, "input": {"regions": c["regions"]}})
             for ri, r in enumerate(c["regions"]):
                 if not r.get("fail"):
-                    per.append({"rules": [{"ns": None, "src": "rule r { strings: %s condition: #a >= 0 }" % decl}],
+                    per.append({"rules": [{"ns": None, "src": 'import "console" rule r { strings: %s condition: #a >= 0 } '
+                                                             'rule ep { condition: console.log("ep=", entrypoint) }' % decl}],
+                                "console": True,
                                 "profile": c.get("profile", "speed"), "params": {"compute_full_matches": True},
                                 "input": {"mem": r["hex"]}})
                     index.append(ci)
@@ -242,15 +268,23 @@ class C11(Prop):
                 v = logs.get(i)
                 results.append("RInt %s" % ("None" if v is None or v < 0 else "(Some %d)" % v))
         per = glist(glist(g_smatch(m) for m in string_matches(o, "r", "a")) for o in out["per"])
+        # entry point by composition: the first listed fetched region that is an image, plus its base
+        ep = None
+        fetched = [r for r in case["regions"] if not r.get("fail")]
+        for r, o in zip(fetched, out["per"]):
+            for line in o.get("logs", []):
+                mm = re.fullmatch(r"ep=(\d+)", line)
+                if mm and ep is None:
+                    ep = r["start"] + int(mm.group(1))
         if case.get("raw_decl"):
             return "C11_case_other %s %s %s %s %s %s %s" % (
                 g_prm(case.get("params", {})), gbool(case["mode"] == "legacy"),
                 g_regions(case["regions"]), per, glist(g_smatch(m) for m in t),
-                glist(g_probe(p) for p in case["probes"]), glist(results))
+                glist(g_probe(p, ep) for p in case["probes"]), glist(results))
         return "C11_case %s %s %s %s %s %s %s %s" % (
             g_decl(case["decl"]), g_prm(case.get("params", {})), gbool(case["mode"] == "legacy"),
             g_regions(case["regions"]), per, glist(g_smatch(m) for m in t),
-            glist(g_probe(p) for p in case["probes"]), glist(results))
+            glist(g_probe(p, ep) for p in case["probes"]), glist(results))
 
     def nontrivial(self, case, out):
         try:
